@@ -40,6 +40,17 @@ def _pop_inter(rng: random.Random, name: str, tier: str) -> dict:
     return pop
 
 
+def _order_pops(rng: random.Random, pops: list) -> list:
+    """Usually sequential baseline first; in 30 % of the scenarios an interleaved population runs *cold*,
+    before anything else has touched the scenario's objects and values in this interpreter (a memo filled by
+    the sequential pass would otherwise hide what a pre-empted or aborted first computation leaves behind).
+    A population that runs before the baseline is judged against the reference model only."""
+    if len(pops) > 1 and rng.random() < 0.3:
+        i = rng.randrange(1, len(pops))
+        return [pops[i]] + pops[:i] + pops[i + 1:]
+    return pops
+
+
 def _gen_evolve(rng: random.Random, g: dict, cur: MG) -> tuple[list[list], MG]:
     """1-3 legal mutations of a shared graph through its public builder API (keeps acyclic worlds acyclic)."""
     steps: list[list] = []
@@ -170,6 +181,7 @@ def gen_case_c14(seed: int, s: int, w: int, tier: str) -> dict:
     ab = _pop_inter(rng, "abort", tier)
     ab["n_aborts"] = 2
     pops.append(ab)
+    pops = _order_pops(rng, pops)
     rng_w = random.Random(f"{seed}:C14:{s}:w{w}")
     return {
         "prop": "C14",
@@ -267,7 +279,7 @@ def gen_case_c02(seed: int, s: int, w: int, tier: str) -> dict:
                     ev.append([gi, steps])
             rnd["evolve"] = ev
         rounds.append(rnd)
-    pops = [{"name": "seq", "policy": "seq"}, _pop_inter(rng, "inter", tier)]
+    pops = _order_pops(rng, [{"name": "seq", "policy": "seq"}, _pop_inter(rng, "inter", tier)])
     rng_w = random.Random(f"{seed}:C02:{s}:w{w}")
     return {
         "prop": "C02",
@@ -345,6 +357,7 @@ def gen_case_c04(seed: int, s: int, w: int, tier: str) -> dict:
     ab = _pop_inter(rng, "abort", tier)
     ab["n_aborts"] = 2
     pops.append(ab)
+    pops = _order_pops(rng, pops)
     rng_w = random.Random(f"{seed}:C04:{s}:w{w}")
     return {
         "prop": "C04",
